@@ -33,6 +33,12 @@ pub enum Kind {
 	DownstreamClaimsOnChainAt { blocks_after_forward: u32 },
 	/// C claims at once, then A stops processing messages from B (B knows the preimage, A is silent)
 	SilentUpstream,
+	/// An HTLC that B has accepted but cannot forward yet (C owes B a revoke_and_ack for an earlier HTLC and
+	/// stays silent, so the forward waits in B's holding cell) reaches its expiry there. `splice`: B has
+	/// negotiated a splice of the B–C channel before, and the miner confirms the splice transaction so that
+	/// it reaches its locking depth `off` blocks after (negative: before) the block in which the waiting
+	/// HTLC must be timed out.
+	UncommittedTimeout { splice: Option<i32> },
 }
 
 #[derive(Clone, Debug)]
@@ -74,8 +80,187 @@ pub struct Outcome {
 	pub label: String,
 }
 
+fn send_abc(w: &mut World, ab: &ChannelId, bc: &ChannelId, pre_byte: u8, hop_delta: u32, final_delta: u32, amt: u64, policy: ClaimPolicy) -> usize {
+	use bitcoin::hashes::Hash;
+	use lightning::ln::channelmanager::PaymentId;
+	use lightning::ln::outbound_payment::RecipientOnionFields;
+	use lightning::routing::router::{Path, PaymentParameters, Route, RouteHop, RouteParameters};
+	let pre = lightning::types::payment::PaymentPreimage([pre_byte; 32]);
+	let hash = lightning::types::payment::PaymentHash(bitcoin::hashes::sha256::Hash::hash(&pre.0).to_byte_array());
+	let secret = w.nodes[2].cm.create_inbound_payment_for_hash(hash, None, 7200, None, None).unwrap().0;
+	let (c0, c1) = (w.chan(0, ab).unwrap(), w.chan(1, bc).unwrap());
+	let route = Route {
+		paths: vec![Path {
+			hops: vec![
+				RouteHop { pubkey: w.nodes[1].id, node_features: w.nodes[1].cm.node_features(), short_channel_id: c0.short_channel_id.unwrap(), channel_features: w.nodes[1].cm.channel_features(), fee_msat: 1000, cltv_expiry_delta: hop_delta, maybe_announced_channel: true },
+				RouteHop { pubkey: w.nodes[2].id, node_features: w.nodes[2].cm.node_features(), short_channel_id: c1.short_channel_id.unwrap(), channel_features: w.nodes[2].cm.channel_features(), fee_msat: amt, cltv_expiry_delta: final_delta, maybe_announced_channel: true },
+			],
+			blinded_tail: None,
+		}],
+		route_params: RouteParameters::from_payment_params_and_value(PaymentParameters::from_node_id(w.nodes[2].id, final_delta), amt),
+	};
+	let r = w.nodes[0].cm.send_payment_with_route(route, hash, RecipientOnionFields::secret_only(secret, amt), PaymentId(hash.0));
+	w.payments.push(crate::world::PaymentRec {
+		id: PaymentId(hash.0),
+		hash,
+		preimage: pre,
+		secret,
+		from: 0,
+		to: 2,
+		amount_msat: amt,
+		policy,
+		send_ok: r.is_ok(),
+		send_err: format!("{:?}", r),
+		claimed_by_recipient: false,
+		failed_by_recipient: false,
+	});
+	w.pump();
+	w.payments.len() - 1
+}
+
+/// Default processing with the C→B link (and optionally others) held.
+fn drain_holding(w: &mut World, held: &[(usize, usize)]) {
+	for _ in 0..600 {
+		let mut did = false;
+		for i in 0..w.nodes.len() {
+			if w.nodes[i].has_events() {
+				w.handle_events(i);
+				did = true;
+			}
+		}
+		for i in 0..w.nodes.len() {
+			if w.nodes[i].cm.needs_pending_htlc_processing() {
+				w.forward(i);
+				did = true;
+			}
+		}
+		let keys: Vec<(usize, usize)> = w.links.iter().filter(|(k, q)| !q.is_empty() && !held.contains(k)).map(|(k, _)| *k).collect();
+		if let Some((f, t)) = keys.first() {
+			w.deliver(*f, *t);
+			did = true;
+		}
+		if !did {
+			break;
+		}
+	}
+}
+
+/// `Kind::UncommittedTimeout`: see the variant's documentation.
+fn run_uncommitted(c: &Case, splice: Option<i32>) -> Result<Outcome, (String, String)> {
+	let viol = |o: &str, d: String| (o.to_string(), d);
+	let mut cfg = user_config(Ct::Static);
+	cfg.reject_inbound_splices = false;
+	let depth = cfg.channel_handshake_config.minimum_depth;
+	let mut w = World::new(vec![cfg.clone(), cfg.clone(), cfg], 253);
+	let ab = w.open_channel(0, 1, 1_000_000, 400_000_000);
+	let bc = w.open_channel(1, 2, 1_000_000, 400_000_000);
+	w.obs_cursor = w.obs.len();
+	let fo = |w: &World, cid: &ChannelId, n: usize| w.chan(n, cid).and_then(|c| c.funding_txo).map(|o| bitcoin::OutPoint { txid: o.txid, vout: o.index as u32 });
+	let (f_ab, f_bc) = (fo(&w, &ab, 0), fo(&w, &bc, 1));
+	let mut splice_txid = None;
+	if splice.is_some() {
+		// B withdraws 100k sat from the B–C channel; negotiation, signing and broadcast run to completion,
+		// the transaction then waits in the mempool
+		w.splice(1, 2, &bc, -100_000).map_err(|e| viol("harness", format!("splice refused: {}", e)))?;
+		drain_holding(&mut w, &[]);
+		splice_txid = w.chain.mempool.iter().find(|t| t.input.iter().any(|i| Some(i.previous_output) == f_bc)).map(|t| t.compute_txid());
+		if splice_txid.is_none() {
+			let api: Vec<String> = w.obs.iter().filter_map(|o| match o { Obs::Api { what, detail, .. } => Some(format!("{} {}", what, detail)), Obs::ErrorAction { what, .. } => Some(what.clone()), _ => None }).collect();
+			return Err(viol("harness", format!("no splice transaction reached the mempool: {:?}", api)));
+		}
+		crate::runner::witness("c08-splice-negotiated");
+	}
+	let start_height = w.chain.height();
+	// payment 1: forwarded to C, whose answers are never delivered from now on
+	let held = [(2usize, 1usize)];
+	let p1 = send_abc(&mut w, &ab, &bc, 0x61, 100, 70, 50_000_000, ClaimPolicy::Hold);
+	drain_holding(&mut w, &held);
+	// payment 2 (expires 20 blocks earlier): B accepts it but cannot forward it while C owes the revocation
+	let p2 = send_abc(&mut w, &ab, &bc, 0x62, 100, 50, 40_000_000, ClaimPolicy::Hold);
+	drain_holding(&mut w, &held);
+	if !w.payments[p1].send_ok || !w.payments[p2].send_ok {
+		return Err(viol("harness", "payments refused by the sender".into()));
+	}
+	let (h1, h2) = (w.payments[p1].hash, w.payments[p2].hash);
+	let sent_out = |w: &World, h| w.obs.iter().any(|o| matches!(o, Obs::Sent { from: 1, to: 2, wire: Wire::Add(m) } if m.payment_hash == h));
+	let cltv_in2 = w.obs.iter().find_map(|o| match o {
+		Obs::Delivered { to: 1, wire: Wire::Add(m), .. } if m.payment_hash == h2 => Some(m.cltv_expiry),
+		_ => None,
+	});
+	let cltv_in2 = cltv_in2.ok_or_else(|| viol("harness", "payment 2 never reached B".into()))?;
+	if !sent_out(&w, h1) || sent_out(&w, h2) {
+		return Err(viol("harness", format!("set-up failed: payment 1 forwarded {}, payment 2 forwarded {}", sent_out(&w, h1), sent_out(&w, h2))));
+	}
+	crate::runner::witness("c08-htlc-waiting-uncommitted");
+	// outgoing expiry the waiting forward would have had, and the height at which it has to be given up
+	let cltv_out2 = cltv_in2 - 100;
+	let give_up_height = cltv_out2 - LATENCY_GRACE_PERIOD_BLOCKS;
+	// splice transaction confirms so that its `depth`-th confirmation is block give_up_height + off
+	let splice_conf_height = splice.map(|off| (give_up_height as i64 + off as i64 - (depth as i64 - 1)) as u32);
+	let mut upstream_fail_height: Option<u32> = None;
+	let mut obs_cursor = w.obs.len();
+	let mut splice_mined_at = None;
+	for _ in 0..(cltv_in2 - start_height + 40) {
+		drain_holding(&mut w, &held);
+		let next = w.chain.height() + 1;
+		let hold_splice = splice_conf_height.map(|h| next < h).unwrap_or(false);
+		let minable: Vec<bitcoin::Transaction> = w.chain.minable(&|_| 0).into_iter().filter(|t| !(hold_splice && Some(t.compute_txid()) == splice_txid)).collect();
+		if minable.iter().any(|t| Some(t.compute_txid()) == splice_txid) {
+			splice_mined_at = Some(next);
+		}
+		w.chain.mine_ordered(minable);
+		w.sync_all();
+		drain_holding(&mut w, &held);
+		let hh = w.chain.height();
+		for o in w.obs[obs_cursor..].iter() {
+			if let Obs::Sent { from: 1, to: 0, wire: Wire::Fail(m) } = o {
+				let _ = m;
+				if upstream_fail_height.is_none() {
+					upstream_fail_height = Some(hh);
+				}
+			}
+		}
+		obs_cursor = w.obs.len();
+	}
+	if splice.is_some() && splice_mined_at != splice_conf_height {
+		return Err(viol("harness", format!("splice transaction mined at {:?}, wanted {:?}", splice_mined_at, splice_conf_height)));
+	}
+	let ctx = format!("waiting HTLC in {} / would-be out {} (give-up height {}), splice {:?} confirmed at {:?} depth {}", cltv_in2, cltv_out2, give_up_height, splice, splice_mined_at, depth);
+	let count = |w: &World, h, sent: bool| {
+		w.obs.iter().filter(|o| match o {
+			Obs::Event { node: 0, ev: Event::PaymentSent { payment_hash, .. } } => sent && *payment_hash == h,
+			Obs::Event { node: 0, ev: Event::PaymentFailed { payment_hash, .. } } => !sent && *payment_hash == Some(h),
+			_ => false,
+		}).count()
+	};
+	if sent_out(&w, h2) {
+		// C became reachable?  It never does in this scenario.
+		return Err(viol("harness", format!("{}: payment 2 was forwarded although C never answered", ctx)));
+	}
+	if count(&w, h2, true) != 0 || count(&w, h2, false) != 1 {
+		return Err(viol(
+			"uncommitted-htlc-not-failed-back",
+			format!("{}: the payer saw PaymentSent x{} PaymentFailed x{} for the HTLC that never left B's holding cell", ctx, count(&w, h2, true), count(&w, h2, false)),
+		));
+	}
+	let uf = upstream_fail_height.ok_or_else(|| viol("uncommitted-htlc-not-failed-back", format!("{}: no update_fail_htlc upstream", ctx)))?;
+	if uf >= cltv_in2 - LATENCY_GRACE_PERIOD_BLOCKS {
+		return Err(viol("failed-back-too-late", format!("{}: failed back only at height {}", ctx, uf)));
+	}
+	let ab_closed = f_ab.map(|f| w.chain.spent_by.contains_key(&f)).unwrap_or(false)
+		|| w.obs.iter().any(|o| matches!(o, Obs::Event { node, ev: Event::ChannelClosed { channel_id, .. } } if (*node == 0 || *node == 1) && *channel_id == ab));
+	if ab_closed {
+		return Err(viol("upstream-channel-lost", format!("{}: the upstream channel was closed", ctx)));
+	}
+	let _ = c;
+	Ok(Outcome { label: format!("uncommitted failback@-{} splice={}", cltv_in2 - uf, splice.is_some() as u8) })
+}
+
 pub fn run_case(c: &Case) -> Result<Outcome, (String, String)> {
 	let viol = |o: &str, d: String| (o.to_string(), d);
+	if let Kind::UncommittedTimeout { splice } = c.kind {
+		return run_uncommitted(c, splice);
+	}
 	let mut w = World::new(vec![user_config(Ct::Static), user_config(Ct::Static), user_config(Ct::Static)], 253);
 	let ab = w.open_channel(0, 1, 1_000_000, 400_000_000);
 	let bc = w.open_channel(1, 2, 1_000_000, 400_000_000);
@@ -413,7 +598,7 @@ pub fn run_case(c: &Case) -> Result<Outcome, (String, String)> {
 				None => Err(viol("inbound-claim-missing", format!("{}: B never claimed the inbound HTLC on chain (commitment broadcast at {})", ctx, hb))),
 			}
 		},
-		Kind::ForwardBoundary { .. } | Kind::LateArrival { .. } => unreachable!(),
+		Kind::ForwardBoundary { .. } | Kind::LateArrival { .. } | Kind::UncommittedTimeout { .. } => unreachable!(),
 	}
 }
 
@@ -435,6 +620,11 @@ pub fn cases(tier: Tier) -> Vec<Case> {
 	let lates: Vec<u32> = if th { (30..=106).collect() } else { vec![30, 36, 37, 38, 39, 40, 41, 42, 45, 60, 100, 101, 102, 103, 104] };
 	for blocks_late in lates {
 		v.push(Case { kind: Kind::LateArrival { blocks_late }, miner_delay: 0 });
+	}
+	v.push(Case { kind: Kind::UncommittedTimeout { splice: None }, miner_delay: 0 });
+	let offs: Vec<i32> = if th { (-12..=12).collect() } else { vec![-6, -2, -1, 0, 1, 2, 6] };
+	for off in offs {
+		v.push(Case { kind: Kind::UncommittedTimeout { splice: Some(off) }, miner_delay: 0 });
 	}
 	let delays: Vec<u32> = if th { (0..=17).collect() } else { vec![0, 17] };
 	for d in delays.iter() {
@@ -483,7 +673,7 @@ pub fn run(args: &Args) -> i32 {
 		}
 	}
 	let has = |s: &str| outcomes.keys().any(|k| k.contains(s));
-	if !(has("closed-bc@") && has("closed-ab@") && has("paid onchain=1") && has("paid onchain=0") && has("fwd=0") && has("fwd=1")) {
+	if !(has("closed-bc@") && has("closed-ab@") && has("paid onchain=1") && has("paid onchain=0") && has("fwd=0") && has("fwd=1") && has("uncommitted failback") && has("splice=1")) {
 		if violations.is_empty() {
 			mc_common::cli::die(&format!("vacuity guard: not every scenario kind reached its non-trivial outcome: {:?}", outcomes));
 		}
